@@ -30,6 +30,7 @@ def gen_swarm(rng):
         "soa": rng.random() < 0.7,
         "ignored_p": rng.choice([0.0, 0.0, 0.1, 0.25]),
         "suffixless_p": rng.choice([0.0, 0.0, 0.3]),
+        "bytes_p": rng.choice([0.0, 0.0, 0.1]),
         "weights": {
             "do": rng.choice([3, 6, 10]),
             "refactor": rng.choice([1, 3, 6]),
